@@ -69,7 +69,7 @@ def main(argv):
         D["H_" + cls.upper()] = 1
         name = "h_%s_matching_%s" % (cls, kind) if cls != "Units" else "h_Units_matching"
         D["H_NAME"] = name
-        c.harnesses.append(("matching", Harness(name, "B", defines=D, unwind=n + 2, extra_cbmc=UWS, backend="sat",
+        c.harnesses.append(("matching", Harness(name, "B", defines=D, unwind=n + 2, backend="sat",
                                                 timeout=2400 if c.tier == "thorough" else 1500,
                                                 bound="child list of %s <= %d entries (other child kinds empty), children compared by an arbitrary equivalence" % (kind, n),
                                                 carries="%s vs its %s: symmetric, reflexive, ignores child order, false when the numbers of children "
